@@ -152,3 +152,109 @@ class ReadLoop(Harness):
         if got != want:
             return {"observed": [repr(g)[:80] for g in got], "clause": f"events == {[repr(w)[:80] for w in want]}"}
         return None
+
+
+class Relay(Harness):
+    """C19 (d): what the user process answers reaches the IMAP client unmodified and in order -- real IMAPClient /
+    IMAPSubprocessInterface.get_and_connect_subprocess / msgs_to_client against a stand-in user process on a loopback socket."""
+
+    scope = "one FETCH response whose literal has a CRLF-free run of 10 / 60000 / 66000 / 130000 / 140000 / 1000000 octets, followed by 3 more responses; the stand-in user process writes it in one piece or in 1460 / 50000-octet pieces"
+    exhaustive = False
+
+    def inputs(self, tier, seed):
+        for run_len in (10, 60_000, 66_000, 130_000, 140_000, 1_000_000):
+            for chunk in (0, 1460, 50_000):
+                yield {"run_len": run_len, "chunk": chunk}
+
+    def check(self, inp):
+        from unittest.mock import AsyncMock, MagicMock
+
+        import asimap.server as server_mod
+        from asimap.server import IMAPClient
+        from asimap.utils import UpgradeableReadWriteLock
+
+        literal = b"Subject: long line\r\n\r\n" + b"Q" * inp["run_len"] + b"\r\nthe end\r\n"
+        response = (b"* 1 FETCH (UID 7 BODY[] {%d}\r\n" % len(literal) + literal + b")\r\n" + b"A001 OK FETCH completed\r\n" + b"* 2 EXISTS\r\n" + b"A002 OK NOOP completed\r\n")
+        chunk = inp["chunk"]
+
+        async def go():
+            got_command = asyncio.Event()
+            received = bytearray()
+
+            async def fake_user_process(reader, writer):
+                try:
+                    hdr = await reader.readuntil(b"\n")
+                    n = int(hdr.strip()[1:-1])
+                    received.extend(await reader.readexactly(n))
+                    got_command.set()
+                    if chunk == 0:
+                        writer.write(response)
+                        await writer.drain()
+                    else:
+                        for i in range(0, len(response), chunk):
+                            writer.write(response[i:i + chunk])
+                            await writer.drain()
+                            await asyncio.sleep(0)
+                    await reader.read()
+                except (ConnectionError, asyncio.IncompleteReadError):
+                    pass
+                finally:
+                    writer.close()
+
+            fake = await asyncio.start_server(fake_user_process, "127.0.0.1", 0)
+            port = fake.sockets[0].getsockname()[1]
+            subp = MagicMock()
+            subp.is_alive = True
+            subp.port = port
+            subp.has_port = asyncio.Event()
+            subp.has_port.set()
+            saved = (server_mod.USER_IMAP_SUBPROCESSES, server_mod.USER_IMAP_SUBPROCESSES_LOCK)
+            server_mod.USER_IMAP_SUBPROCESSES = {"demo": subp}
+            server_mod.USER_IMAP_SUBPROCESSES_LOCK = UpgradeableReadWriteLock()
+            user = MagicMock()
+            user.username = "demo"
+            to_client = bytearray()
+            client_writer = MagicMock(spec=asyncio.StreamWriter)
+            client_writer.write = MagicMock(side_effect=to_client.extend)
+            client_writer.drain = AsyncMock()
+            imap_server = MagicMock()
+            imap_server.debug = False
+            client = IMAPClient(imap_server, "test:1234", "127.0.0.1", 1234, asyncio.StreamReader(), client_writer)
+            intf = client.subprocess_intf
+            relay_task = None
+            try:
+                await intf.get_and_connect_subprocess(user)
+                relay_task = intf.wait_task
+                intf.client_handler.state = "authenticated"
+                if await intf.message(b"A001 UID FETCH 7 BODY[]") is not True:
+                    return "the command was not forwarded"
+                await asyncio.wait_for(got_command.wait(), 10)
+                if bytes(received) != b"A001 UID FETCH 7 BODY[]":
+                    return f"user process received {bytes(received)!r}"
+                try:
+                    async with asyncio.timeout(20):
+                        while len(to_client) < len(response) and not relay_task.done():
+                            await asyncio.sleep(0.01)
+                except TimeoutError:
+                    pass
+                if bytes(to_client) != response:
+                    k = next((i for i, (x, y) in enumerate(zip(to_client, response)) if x != y), min(len(to_client), len(response)))
+                    return f"relayed {len(to_client)} of {len(response)} octets, first difference at {k}; relay task ended: {relay_task.done()}"
+                return None
+            finally:
+                if relay_task is not None and not relay_task.done():
+                    relay_task.cancel()
+                    try:
+                        await relay_task
+                    except (asyncio.CancelledError, Exception):
+                        pass
+                try:
+                    await intf.close()
+                except Exception:
+                    pass
+                fake.close()
+                await fake.wait_closed()
+                server_mod.USER_IMAP_SUBPROCESSES, server_mod.USER_IMAP_SUBPROCESSES_LOCK = saved
+
+        err = asyncio.run(asyncio.wait_for(go(), 60))
+        return {"observed": err, "clause": "responses from the user process reach the client unmodified and in order"} if err else None
